@@ -238,6 +238,11 @@ func (pkg *pkg) Print() error {
 }
 
 func (pkg *pkg) Delete() error {
+	if pkg.fullpath == "" {
+		// None of the files of the package could be used, so its directory is unknown.
+		// The relative filename would be the generated file of the working directory.
+		return nil
+	}
 	filename := pkg.Filename()
 	_, err := os.Stat(filename)
 	if err != nil {
